@@ -946,6 +946,15 @@ class Machine:
         return r & m
 
     def fcmp(s, pred, x, y):
+        if (isF(x) or isF(y)) and not (isF(x) and isF(y)):
+            # symbolic (finite, in the real theory) against a non-finite constant: isinf / isnan style tests
+            c = y if isF(x) else x; flip = not isF(x)
+            if isinstance(c, float) and (c != c or c in (float('inf'), float('-inf'))):
+                if c != c: return int(pred[0] == 'u' or pred == 'true')
+                big = c > 0; p = pred[1:] if pred[0] in 'ou' else pred
+                if flip: p = {'lt': 'gt', 'gt': 'lt', 'le': 'ge', 'ge': 'le'}.get(p, p)
+                # now: sym p (+-inf)
+                return int({'eq': False, 'ne': True, 'lt': big, 'le': big, 'gt': not big, 'ge': not big, 'rd': True, 'no': False}.get(p, False))
         if isF(x) or isF(y):
             a = s.lower(x); b = s.lower(y)
             if pred in ('ord',): return 1
